@@ -46,6 +46,10 @@ func Variants(samIn, refIn io.Reader, refFromFile bool, annoIn io.Reader, annoSu
 			os.Stderr.WriteString("using --annotation fasta as reference\n")
 		}
 		refLenDegapped := len(ref.Decode().Degap().Seq)
+		// check that the reference sequence is in the same coordinates as the annotation, as variants does
+		if refLenDegapped != len(gb.ORIGIN) {
+			return errors.New("the reference sequence (" + ref.ID + ") is not the same length as the genbank annotation")
+		}
 		cdsregions, intregions, err = variants.RegionsFromGenbank(gb, refLenDegapped)
 		if err != nil {
 			return err
@@ -75,6 +79,17 @@ func Variants(samIn, refIn io.Reader, refFromFile bool, annoIn io.Reader, annoSu
 			}
 		}
 		refSeqDegapped := ref.Decode().Degap().Seq
+		// check that the reference sequence is in the same coordinates as the annotation, if the gff
+		// file has a ##sequence-region line, as variants does
+		if len(gff.SequenceRegions) > 1 {
+			return errors.New("more than one sequence-region in gff header")
+		} else if len(gff.SequenceRegions) == 1 {
+			for key := range gff.SequenceRegions {
+				if len(refSeqDegapped) != gff.SequenceRegions[key].End {
+					return errors.New("the reference sequence (" + ref.ID + ") is not the same length as the gff annotation")
+				}
+			}
+		}
 		cdsregions, intregions, err = variants.RegionsFromGFF(gff, refSeqDegapped)
 		if err != nil {
 			return err
